@@ -47,7 +47,84 @@ def body_fn(stmts, args, lineno=0):
     return ast.FunctionDef(name="body", args=args, body=stmts, decorator_list=[], returns=None, type_comment=None, lineno=lineno, col_offset=0)
 
 
+def arity_ok(call, init):
+    """can `K(*call.args, **call.keywords)` be bound to K.__init__ (self excluded)?"""
+    a = init.args
+    params = [x.arg for x in a.args][1:]
+    ndef = len(a.defaults)
+    required = set(params[:len(params) - ndef] if ndef else params)
+    if len(call.args) > len(params) and not a.vararg:
+        return False
+    bound = set(params[:len(call.args)])
+    for k in call.keywords:
+        if k.arg is None:
+            return None
+        if k.arg not in params and k.arg not in [x.arg for x in a.kwonlyargs] and not a.kwarg:
+            return False
+        if k.arg in bound:
+            return False
+        bound.add(k.arg)
+    return required <= bound
+
+
+def r7_comparator_class(ctx, repo):
+    """the relation the ranks are taken under is Pareto dominance: every way the package offers to construct a selector
+    leaves an instance of ParetoDominance in the attribute that fast_nondominated_sorting compares with"""
+    sel = repo.cls("Selector", "operators")
+    fn = sel.methods.get("fast_nondominated_sorting")
+    selfn = func_params(fn)[0]
+    used = {access_path(c.func.value) for c in calls_in(fn) if isinstance(c.func, ast.Attribute) and c.func.attr == "compare"}
+    attrs = {u[len(selfn) + 1:] for u in used if u and u.startswith(selfn + ".")}
+    if len(attrs) != 1:
+        ctx.inconclusive("R7", "Selector.fast_nondominated_sorting", where(sel.module, fn), "comparator attribute not recognised (%s)" % sorted(used))
+        return
+    attr = next(iter(attrs))
+    doms = [c for c in repo.subclasses("Dominance")] if repo.has_cls("Dominance") else []
+    bad = unknown = None
+    nwrites = 0
+    for k in [sel] + repo.subclasses("Selector"):
+        for mname, m in k.methods.items():
+            me = func_params(m)[0] if func_params(m) else None
+            mparams = func_params(m)[1:]
+            for st in stmts_of(m):
+                if not isinstance(st, ast.Assign) or not any(access_path(t) == "%s.%s" % (me, attr) for t in st.targets):
+                    continue
+                nwrites += 1
+                v = st.value
+                C = "%s.%s" % (k.name, mname)
+                if isinstance(v, ast.Call) and isinstance(v.func, ast.Name) and repo.has_cls(v.func.id):
+                    if v.func.id != "ParetoDominance":
+                        bad = bad or (k, st, "%s sets the ranking comparator to %s(...)" % (C, v.func.id))
+                elif isinstance(v, ast.Call) and isinstance(v.func, ast.Name) and v.func.id in mparams:
+                    # a comparator class chosen by the caller: which classes of the package does this call accept?
+                    for d in doms:
+                        di = repo.find_method(d, "__init__")
+                        ok = arity_ok(v, di[1]) if di else (not v.args and not v.keywords)
+                        if ok and d.name != "ParetoDominance":
+                            bad = bad or (k, st, "%s builds the ranking comparator as %s: constructed with %s=%s it ranks with %s, which is not Pareto dominance "
+                                          "(it never calls two equal cost vectors incomparable), so the front numbers are not the Pareto ranks" % (C, text(v), v.func.id, d.name, d.name))
+                        elif ok is None:
+                            unknown = unknown or (k, st, "%s: call %s not resolvable" % (C, text(v)))
+                else:
+                    unknown = unknown or (k, st, "%s assigns %s to the ranking comparator" % (C, text(v)))
+    if bad:
+        ctx.violated("R7", "Selector(%s)" % attr, where(bad[0].module, bad[1]), bad[2])
+    elif unknown:
+        ctx.inconclusive("R7", "Selector(%s)" % attr, where(unknown[0].module, unknown[1]), unknown[2])
+    elif nwrites == 0:
+        ctx.inconclusive("R7", "Selector(%s)" % attr, where(sel.module, sel.node), "the ranking comparator is never assigned")
+    else:
+        ctx.holds("R7", "Selector(%s)" % attr, where(sel.module, sel.node), "every assignment of the ranking comparator (%d) yields a ParetoDominance instance for every comparator class of the package "
+                  "(other classes of the package cannot be constructed by these calls)" % nwrites)
+
+
 def run(ctx):
+    ctx.rule("R7", "the ranking comparator is Pareto dominance for every constructible selector")
+    r7_comparator_class(ctx, ctx.repo)
+    run_sorting(ctx)
+
+
+def run_sorting(ctx):
     for rid, doc in (("R1", "pair coverage and unconditional comparison"), ("R2", "mirror bookkeeping per verdict"), ("R3", "reset with fresh lists"),
                      ("R4", "zero-test after the inner loop"), ("R5", "peeling: index relations, one decrement per recorded id, rank = previous + 1"),
                      ("R6", "ownership of the bookkeeping features")):
